@@ -296,60 +296,42 @@ class IndexedCache:
         if isinstance(cache, CacheDict) and not cache:
             return
         keys = self.keys
-        n_keys = len(keys)
         key = keys[key_idx]
+        last = key_idx + 1 == len(keys)
 
-        # Follow the concrete chain as far as it exists without exceptions
-        while key in assignment:
+        # an entry agrees with the lookup on this key if it binds it to the same value or does not bind it at all (it is
+        # stored under the wildcard then): a bound key follows the concrete branch AND the wildcard branch.
+        if key in assignment:
             # presence is membership: what is stored under a key may be any output, None included.
-            if assignment[key] not in cache:
-                # Try wildcard branch at this level
-                if All in cache:
-                    yield from self._yield_result(assignment, cache[All], key_idx, result)
-                else:
-                    self.search_count += 1
-                return
-            cache = cache[assignment[key]]
-            if key_idx + 1 < n_keys:
-                key_idx += 1
-                key = keys[key_idx]
-            else:
-                break
-
-        if key not in assignment:
-            # Prefer wildcard branch if available
+            branches = []
+            if assignment[key] in cache:
+                branches.append((All, cache[assignment[key]]))
             if All in cache:
-                yield from self._yield_result(assignment, cache[All], key_idx, result)
-            else:
-                # Explore all branches at this level, copying only the minimal delta
-                for cache_key, cache_val in cache.items():
-                    local_result = copy(result)
-                    local_result[key] = cache_key
-                    yield from self._yield_result(assignment, cache_val, key_idx, local_result)
+                branches.append((All, cache[All]))
+            if not branches:
+                self.search_count += 1
+        elif All in cache:
+            # an entry that leaves this key open was stored by an evaluation for which the row held whatever the key's value:
+            # it stands for the entries that bind the key as well.
+            branches = [(All, cache[All])]
         else:
-            # Reached the leaf (value or next dict) specifically specified by assignment
-            yield result, cache
+            branches = list(cache.items())
+        for cache_key, cache_val in branches:
+            if cache_key is All:
+                local_result = result
+            else:
+                local_result = copy(result)
+                local_result[key] = cache_key
+            if last:
+                yield copy(local_result), cache_val
+            else:
+                self.search_count += 1
+                yield from self.retrieve(assignment, cache_val, key_idx + 1, local_result)
 
     def clear(self):
         self.cache.clear()
         self.seen_set.clear()
         self.flat_cache.clear()
-
-    def _yield_result(self, assignment: Dict, cache_val: Any, key_idx: int, result: Dict[int, Any]):
-        """
-        Internal helper to descend into cache and yield concrete results.
-
-        :param assignment: Original partial assignment.
-        :param cache_val: Current cache node or value.
-        :param key_idx: Current key index.
-        :param result: Accumulated assignment.
-        :return: Yields (assignment, value) when reaching leaves.
-        """
-        if isinstance(cache_val, CacheDict):
-            self.search_count += 1
-            yield from self.retrieve(assignment, cache_val, key_idx + 1, result)
-        else:
-            yield result, cache_val
 
 
 def yield_class_values_from_cache(cache: Dict[Type, IndexedCache], clazz: Type,
